@@ -211,7 +211,7 @@ def run(chk):
     chk.function(UTIL, "_AlignmentFormatter.slice_string_in_blocks", "P")
     only = getattr(chk, "only", None)
     if not only or "proof" in only:
-        run_blocks(chk)
+        chk.guard(run_blocks)
         chk.discharge()
     chk.assume("str slicing follows CPython slice semantics; printf '%-10s' pads to width 10 (trusted)")
     chk.assume("not decided by proof: parse(write(x)) == x at string level (textwrap, splitlines, regex), parser agreement, compression")
